@@ -18,10 +18,10 @@ Proof.
   intros a Ha. unfold atoms_plain in H. rewrite forallb_forall in H. specialize (H a Ha). destruct a; [reflexivity|discriminate].
 Qed.
 
-Lemma reads_kids_pump ks :
-  (forall k, In k ks -> reads k (pump_e k)) -> reads_kids ks (flat_map pump_e ks).
+Lemma reads_kids_pump ord ks :
+  (forall k, In k ks -> reads_o ord k (pump_e k)) -> reads_kids_o ord ks (flat_map pump_e ks).
 Proof.
-  induction ks as [|k r IH]; intros H; [reflexivity|]. cbn [flat_map reads_kids].
+  induction ks as [|k r IH]; intros H; [reflexivity|]. cbn [flat_map reads_kids_o].
   exists (pump_e k), (flat_map pump_e r). split; [reflexivity|]. split; [apply H; left; reflexivity|].
   apply IH. intros x Hx. apply H. right; exact Hx.
 Qed.
@@ -42,21 +42,23 @@ Section EnodeInd.
     end.
 End EnodeInd.
 
-Lemma reads_pump : forall e, plain_tree e = true -> reads e (pump_e e).
+(* the canonical stream keeps the attribute order: it is a reading for both values of `ord` *)
+Lemma reads_pump ord : forall e, plain_tree e = true -> reads_o ord e (pump_e e).
 Proof.
   induction e as [atoms|q eats ekids IH] using enode_ind'; intros Hp; [discriminate Hp|].
   cbn [plain_tree] in Hp. apply andb_true_iff in Hp as [Hp Hk]. apply andb_true_iff in Hp as [Hpa Hnd].
-  cbn [reads pump_e].
+  cbn [reads_o pump_e].
   exists (map (fun a => (clark_of (fst a), atoms_str (snd a))) eats), [],
          (match ekids with [EData atoms] => Some (atoms_str atoms) | _ => None end), None, (flat_map pump_e ekids).
   split; [reflexivity|]. split; [|split; [reflexivity|]].
-  - split; [|split].
+  - split; [|split; [|split]].
+    4:{ intros _. rewrite map_map. reflexivity. }
     + rewrite map_map. cbn [fst]. apply nodup_by_str. exact Hnd.
     + apply map_length.
     + intros ea Hea. exists (atoms_str (snd ea)). split.
       * rewrite forallb_forall in Hpa. apply (atoms_plain_read [] _ _ (Hpa ea Hea)). apply atoms_text_plain. apply (Hpa ea Hea).
       * apply in_map_iff. exists ea. split; [reflexivity|exact Hea].
-  - assert (Hkids : forallb plain_tree ekids = true -> forall k, In k ekids -> reads k (pump_e k)).
+  - assert (Hkids : forallb plain_tree ekids = true -> forall k, In k ekids -> reads_o ord k (pump_e k)).
     { intros Hall k Hin. rewrite forallb_forall in Hall. rewrite Forall_forall in IH. apply (IH k Hin). apply Hall. exact Hin. }
     destruct ekids as [|k1 r]; [split; reflexivity|].
     destruct k1 as [atoms|q1 a1 k1].
@@ -65,7 +67,7 @@ Proof.
         split; [apply (atoms_plain_read [] _ _ Hpl); apply atoms_text_plain; exact Hpl|]. split; [|split; reflexivity].
         intros E. rewrite E in Hne. discriminate Hne.
       * cbn [forallb plain_tree] in Hk. discriminate Hk.
-    + split; [reflexivity|]. apply (reads_kids_pump (EElem q1 a1 k1 :: r)). apply Hkids. exact Hk.
+    + split; [reflexivity|]. apply (reads_kids_pump ord (EElem q1 a1 k1 :: r)). apply Hkids. exact Hk.
 Qed.
 
 (* ---------------------------------------------------------------- the expected tree is plain *)
